@@ -443,6 +443,13 @@ func (p c20) firstUse(c *core.Ctx, clock *opClock, G int) {
 		}
 		data := map[string]interface{}{}
 		b := node.NewBrowser(m, nodeutil.ReflectChild(data))
+		if g%2 == 1 {
+			// every public accessor of the schema, as the first thing some goroutines do
+			step("walk", func() (string, error) {
+				d, _ := walk.Dump(m)
+				return walk.JSON(d), nil
+			})
+		}
 		step("upsert-json", func() (string, error) {
 			n, err := nodeutil.ReadJSON(doc(g))
 			if err != nil {
